@@ -33,6 +33,8 @@ from collections import Counter
 VERIF = os.path.dirname(os.path.dirname(os.path.abspath(__file__)))
 REPO = os.environ.get("VERIF_REPO", "/repo")
 KNOWN_FILE = os.path.join(VERIF, "known_findings.json")
+# sensitivity runs against a scratch copy must not overwrite real evidence/replays
+OUT = os.path.join(VERIF, ".work", "scratch-" + os.environ["VERIF_SCRATCH"]) if os.environ.get("VERIF_SCRATCH") else VERIF
 NSHARDS = 16
 
 
@@ -265,7 +267,7 @@ def _deep_get(case, dotted):
 
 # --------------------------------------------------------------------------
 def write_replay(prop, case, disc, tier, seed):
-    d = os.path.join(VERIF, "replays", prop)
+    d = os.path.join(OUT, "replays", prop)
     os.makedirs(d, exist_ok=True)
     body = {"property": prop, "signature": disc.signature, "detail": disc.detail,
             "case": json.loads(canon(case)), "tier": tier, "seed": seed, "tree": tree_id()}
@@ -315,7 +317,7 @@ def write_evidence(mod, tier, seed, merged, wall, violations):
         "wall_s": round(wall, 2),
         "violations": violations,
     }
-    d = os.path.join(VERIF, "evidence")
+    d = os.path.join(OUT, "evidence")
     os.makedirs(d, exist_ok=True)
     path = os.path.join(d, f"{mod.PROPERTY}.json")
     tmp = path + ".tmp"
